@@ -80,6 +80,15 @@ type bloomcache struct {
 	buildMu  sync.Mutex
 	buildErr error
 
+	// putMu orders writes against Rebuild replacing the filter. Put and PutMany
+	// hold it shared from adding their keys to the filter until the write to
+	// the underlying blockstore has finished; Rebuild holds it exclusively
+	// while it deactivates the cache, swaps in the empty filter and starts the
+	// key enumeration. A write therefore either finished before the
+	// enumeration was started (and is enumerated) or adds its keys to the new
+	// filter.
+	putMu sync.RWMutex
+
 	buildChan  chan struct{}
 	blockstore Blockstore
 	viewer     Viewer
@@ -168,10 +177,16 @@ func (b *bloomcache) Rebuild(ctx context.Context) error {
 	// instead leave a block written concurrently with a rebuild as a transient
 	// false negative until the next rebuild: the bloom-pointer atomic orders
 	// only the filter swap, not datastore visibility.
+	b.putMu.Lock()
 	b.active.Store(false)
 	b.bloom.Store(fresh)
+	ch, errFn, err := allKeysChanWithErrFor(ctx, b.blockstore)
+	b.putMu.Unlock()
+	if err != nil {
+		return fmt.Errorf("AllKeysChan failed in bloomcache build with: %w", err)
+	}
 
-	if err := b.populate(ctx, fresh); err != nil {
+	if err := b.populateFrom(ctx, fresh, ch, errFn); err != nil {
 		return err
 	}
 	b.active.Store(true)
@@ -186,6 +201,11 @@ func (b *bloomcache) populate(ctx context.Context, target *bloom.Bloom) error {
 	if err != nil {
 		return fmt.Errorf("AllKeysChan failed in bloomcache build with: %w", err)
 	}
+	return b.populateFrom(ctx, target, ch, errFn)
+}
+
+// populateFrom adds every key delivered on ch to target. See populate.
+func (b *bloomcache) populateFrom(ctx context.Context, target *bloom.Bloom, ch <-chan cid.Cid, errFn func() error) error {
 	for {
 		select {
 		case key, ok := <-ch:
@@ -290,11 +310,18 @@ func (b *bloomcache) Get(ctx context.Context, k cid.Cid) (blocks.Block, error) {
 
 func (b *bloomcache) Put(ctx context.Context, bl blocks.Block) error {
 	// See comment in PutMany
-	err := b.blockstore.Put(ctx, bl)
-	if err == nil {
-		b.bloom.Load().AddTS(bl.Cid().Hash())
-	}
-	return err
+	b.putMu.RLock()
+	defer b.putMu.RUnlock()
+
+	// Add the key to the filter before writing the block, so that a block that
+	// is visible in the underlying blockstore is never missing from an active
+	// filter. Adding after the write would leave a window in which a reader
+	// that falls through to the blockstore (filter not active yet) sees the
+	// block, and a later reader (filter activated in between) is told it does
+	// not exist. If the write fails the key stays in the filter, which only
+	// costs a false positive.
+	b.bloom.Load().AddTS(bl.Cid().Hash())
+	return b.blockstore.Put(ctx, bl)
 }
 
 func (b *bloomcache) PutMany(ctx context.Context, bs []blocks.Block) error {
@@ -302,14 +329,15 @@ func (b *bloomcache) PutMany(ctx context.Context, bs []blocks.Block) error {
 	// to reduce number of puts we need conclusive information if block is contained
 	// this means that PutMany can't be improved with bloom cache so we just
 	// just do a passthrough.
-	err := b.blockstore.PutMany(ctx, bs)
-	if err != nil {
-		return err
-	}
+	b.putMu.RLock()
+	defer b.putMu.RUnlock()
+
+	// As in Put, the keys go into the filter before the blocks are written.
+	filter := b.bloom.Load()
 	for _, bl := range bs {
-		b.bloom.Load().AddTS(bl.Cid().Hash())
+		filter.AddTS(bl.Cid().Hash())
 	}
-	return nil
+	return b.blockstore.PutMany(ctx, bs)
 }
 
 func (b *bloomcache) AllKeysChan(ctx context.Context) (<-chan cid.Cid, error) {
